@@ -2,7 +2,46 @@
 
 Tie: B against gambit.kmers.find_kmers (set of (pos, reverse)) and gambit.sigs.calc.calc_signature
 (array + dtype) for str / bytes / bytearray / Bio.Seq inputs and both accumulators; T for the
-encoders the model calls (Gen/KmersPyx.v).  Oracle = extracted specification [signature_spec]."""
+encoders the model calls (Gen/KmersPyx.v).  Oracle = extracted specification [signature_spec].
+
+Coverage table (audit of the property text; I = driven on the implementation, P = property predicate
+judged there; kinds: sig / find = original, api / findx / big = added by the audit):
+
+  item                                              stream(s) -> kind                          I  P
+  k = 1..32, every value                            all-k (each k, 6+ cases); before: 14 values  I  P  sig
+  dtype = smallest unsigned type, all k, empty sig  all-k, empty-collection (k=1..32)           I  P  sig/api
+  prefix length 1..7 / 8..24                        random-planted / long-prefix                I  P  sig
+  prefix given as str / bytes / bytearray / Seq /   api (variants p:*; lower-case forms judged  I  P  api
+    lower or mixed case / JSON / pickle / copy        only if KmerSpec accepts them)
+  k given as Python int / NumPy signed scalar       api (variants k:int64/int32/intp)           I  P  api
+  k given as NumPy UNSIGNED scalar                  api (variants k:uint*, counted only, see    I  -  api
+                                                      ASSUMPTIONS: -k wraps, known boundary)
+  sequences: any bytes                              exhaustive 8 classes; byte-sweep (all 256    I  P  sig
+                                                      values at every window offset, both strands)
+  length < prefix+k, 0, 1, flush with either end    exhaustive-ACGTN, random-planted, byte-sweep I  P  sig
+  overlapping / adjacent / self-overlapping /       exhaustive, random-planted (15%), tandem     I  P  sig
+    palindromic occurrences, homopolymers             (unit repeats up to 300 bytes)
+  letter case: mixed / all lower / swapped          random-planted (mixed); case-variants        I  P  sig
+  long sequences (to 1 MB quick, 4 MB thorough;     big (Python reference predicate only, model  I  P  big
+    occurrences across 2^15 / 2^16 / 2^20 offsets)    skipped: the Coq spec is quadratic)
+  collection: list of 1..3                          exhaustive, random-planted                   I  P  sig
+  collection: empty, 10..60 items, repeats, empties empty-collection, many-seqs                  I  P  sig
+  collection: tuple / iterator / generator / deque  api (variants c:*)                           I  P  api
+    / dict keys / custom iterable / same object x2
+  single bare sequence (not wrapped), 4 types       default-single in every sig case             I  P  sig
+  element types str / bytes / bytearray / Seq       every sig case (x set, array)                I  P  sig
+  Seq(str) / Seq(bytearray) / Seq slice / subclass  api (variants t:*), mixed types in one call  I  P  api
+    of bytes, str / mixed types in one collection
+  accumulator: set (all k), array (k <= 11; 12, 13  every sig case (before: array k <= 9, default I  P  sig
+    in all-k dense cases), default for 1 and n seqs   only for a single sequence)
+  accumulator reused after clear(); keyword call    api (variants a:*-reused, call:kw)           I  P  api
+  accumulate_kmers + signature(); add_kmer route    api (variants a:accumulate*, a:add_kmer)     I  P  api
+  calc_file_signature (FASTA, accumulator=...)      api (variants file:*; letters-only cases)    I  P  api
+  find_kmers: bytes, model tie on (pos, reverse)    every find case                              I  -  find
+  find_kmers: 4 types + keyword form; per strand    findx (k-mers per strand vs fwd_kmers spec;  I  P  findx
+    k-mer sets, KmerMatch.kmer()/kmer_index()         kmer() consistent with kmer_index())
+  not judged (not stated): yield order/multiplicity of matches, byte order of the dtype, accumulator
+  state after the call, a pre-filled accumulator, non-ASCII text, MutableSeq/memoryview, k > 32."""
 import itertools
 
 import numpy as np
@@ -10,11 +49,20 @@ import numpy as np
 PROP = 'C01'
 RULE = ('sig: (k, prefix, sequences) -> calc_signature for 4 input types x 2 accumulators vs model vs spec; find: '
         'find_kmers match set vs model; non-trivial: at least one k-mer found and (a match on each strand or two '
-        'overlapping/adjacent occurrences or an occurrence dropped for an invalid byte)')
+        'overlapping/adjacent occurrences or an occurrence dropped for an invalid byte); api: (k, prefix, sequences) -> '
+        'every call form (k / prefix / KmerSpec representation, container, element type, accumulator route, file) vs '
+        'signature_spec + dtype_spec, non-trivial: non-empty signature; findx: find_kmers for 4 input types, k-mer sets '
+        'per strand vs fwd_kmers spec and kmer() vs kmer_index(), non-trivial: >= 2 matches; big: generated long '
+        'sequences (described by seed) vs the Python reference of the specification, non-trivial: >= 100 k-mers')
 TRUSTED = ['tools/pyx2v.py for the encoders; hand model of bytes.find / bytes.upper / slicing (CPython) in Model/C01.v',
            'Biopython Seq slicing and bytes() agree with bytes']
 ASSUMPTIONS = ['str inputs are ASCII (the code raises otherwise); prefix is non-empty upper-case ACGT (KmerSpec validates it)',
-               'the dense accumulator is executed for k <= 11 in the implementation and k <= 6 in the model']
+               'the dense accumulator is executed for k <= 11 (k <= 13 in a few all-k cases) in the implementation and k <= 6 in the model',
+               'k is a Python int or a signed NumPy integer scalar; for an UNSIGNED NumPy scalar k (np.uint8(5) ...) '
+               'find_kmers computes -k with wrap-around and the property is false (spurious truncated k-mers) or 4**k '
+               'is a float and the call raises: driven, counted in extra[unsigned_k], not judged (reported boundary)',
+               'kind big is judged by the Python reference _py_sig of the specification (cross-checked against the '
+               'extracted signature_spec on every api case), the Coq model is not run on those inputs']
 
 NUC = b'ACGT'
 
@@ -62,11 +110,15 @@ def k_sig(ctx, cases):
 			if any(x is None for x in inp):
 				continue
 			for accname in ('set', 'array'):
-				if accname == 'array' and k > 9:
+				if accname == 'array' and k > 11 and not (c.get('dense') and kind == 'bytes' and k <= 13):
 					continue
 				acc = SetAccumulator(k) if accname == 'set' else ArrayAccumulator(k)
 				sig = calc_signature(kspec, inp, accumulator=acc)
 				results[(kind, accname)] = (sig.tolist(), sig.dtype.itemsize if sig.dtype.kind == 'u' else -sig.dtype.itemsize)
+			# default accumulator, collection call form (dense up to k = 11, set above)
+			if len(inp) != 1 and (kind == 'bytes' or k <= 9 or k > 11):
+				sig = calc_signature(kspec, inp)
+				results[(kind, 'default')] = (sig.tolist(), sig.dtype.itemsize if sig.dtype.kind == 'u' else -sig.dtype.itemsize)
 			# default accumulator, single-sequence call form
 			if len(inp) == 1:
 				sig = calc_signature(kspec, inp[0])
@@ -127,7 +179,451 @@ def k_find(ctx, cases):
 			ctx.broke('correspondence find (find_kmers)', f'{c}: impl {ms[:10]} model {mm if not isinstance(mm, list) else mm[:10]}')
 
 
-KINDS = {'sig': k_sig, 'find': k_find}
+# ---------------------------------------------------------------------------------------------
+# audit additions: Python reference of the specification, call-form / find_kmers / long-sequence kinds
+# ---------------------------------------------------------------------------------------------
+_CODE = {65: 0, 67: 1, 71: 2, 84: 3}
+_RCTAB = bytes.maketrans(b'ACGTacgt', b'TGCAtgca')
+
+
+def _py_fwd(k, p, s):
+	"""indices of the valid k-mers that follow forward-strand occurrences of p in s, by position
+	(direct transcription of Spec/C01.v fwd_kmers)"""
+	u = bytes(s).upper()          # bytes.upper touches a-z only, like Spec.Kmers.upper
+	out = []
+	m = len(p)
+	for q in range(0, len(u) - m - k + 1):
+		if u.startswith(p, q):
+			v = 0
+			for b in u[q + m:q + m + k]:
+				d = _CODE.get(b)
+				if d is None:
+					v = None
+					break
+				v = v * 4 + d
+			if v is not None:
+				out.append(v)
+	return out
+
+
+def _py_rc(s):
+	return bytes(s).translate(_RCTAB)[::-1]
+
+
+def _py_sig(k, p, seqs):
+	acc = set()
+	for s in seqs:
+		acc.update(_py_fwd(k, p, s))
+		acc.update(_py_fwd(k, p, _py_rc(s)))
+	return sorted(acc)
+
+
+def _py_dts(k):
+	return 1 if k <= 4 else 2 if k <= 8 else 4 if k <= 16 else 8 if k <= 32 else None
+
+
+def _obs(sig):
+	"""what the property constrains of a returned signature: values in order + unsigned item size"""
+	if not isinstance(sig, np.ndarray) or sig.ndim != 1:
+		return ('not a 1-d array', type(sig).__name__)
+	return (sig.tolist(), sig.dtype.itemsize if sig.dtype.kind == 'u' else -sig.dtype.itemsize)
+
+
+class _Skip(Exception):
+	pass
+
+
+class _MyBytes(bytes):
+	pass
+
+
+class _MyStr(str):
+	pass
+
+
+class _Iterable:
+	"""an iterable that is neither a sequence nor an iterator"""
+	def __init__(self, items):
+		self._items = items
+
+	def __iter__(self):
+		return iter(list(self._items))
+
+
+_SCRATCH = []
+_FILENO = itertools.count()
+
+
+def _scratch():
+	if not _SCRATCH:
+		from vf import impl
+		_SCRATCH.append(impl.scratch_dir('gambit-verif-c01-'))
+	return _SCRATCH[0]
+
+
+def _elem(b, form):
+	"""one sequence in the element representation `form`; _Skip when the bytes cannot be text"""
+	from Bio.Seq import Seq
+	b = bytes(b)
+	ascii_ok = all(x < 128 for x in b)
+	if form in ('str', 'seq-str', 'mystr') and not ascii_ok:
+		raise _Skip()
+	if form == 'bytes':
+		return b
+	if form == 'bytearray':
+		return bytearray(b)
+	if form == 'str':
+		return b.decode('ascii')
+	if form == 'seq':
+		return Seq(b)
+	if form == 'seq-str':
+		return Seq(b.decode('ascii'))
+	if form == 'seq-bytearray':
+		return Seq(bytearray(b))
+	if form == 'seq-slice':
+		return Seq(b'TAC' + b + b'GAT')[3:3 + len(b)]
+	if form == 'seq-seq':
+		return Seq(Seq(b))
+	if form == 'mybytes':
+		return _MyBytes(b)
+	if form == 'mystr':
+		return _MyStr(b.decode('ascii'))
+	raise KeyError(form)
+
+
+ELEM_FORMS = ('bytes', 'bytearray', 'str', 'seq', 'seq-str', 'seq-bytearray', 'seq-slice', 'seq-seq', 'mybytes', 'mystr')
+UNSIGNED_K = ('uint8', 'uint16', 'uint32', 'uint64')
+
+
+def _api_variants(c, seqs):
+	"""(name, thunk) for every call form; each thunk returns the signature array.  Everything is a
+	function of the case (c['vseed'] drives the random choices)."""
+	import collections
+	import copy
+	import pickle
+	import random
+	from Bio.Seq import Seq
+	from gambit.kmers import KmerSpec, find_kmers
+	from gambit.sigs.calc import (calc_signature, calc_file_signature, ArrayAccumulator, SetAccumulator,
+	                              default_accumulator, accumulate_kmers)
+	from gambit.seq import SequenceFile
+	import gambit.util.json as gjson
+	rnd = random.Random(c.get('vseed', 0))
+	k, P = c['k'], c['prefix']
+	ks = KmerSpec(k, P)
+	blist = [bytes(s) for s in seqs]
+	out = []
+
+	def add(name, fn):
+		out.append((name, fn))
+
+	# -- k representation (signed NumPy scalars: what h5py hands to KmerSpec when a signature file is loaded)
+	for nm in ('int64', 'int32', 'intp'):
+		add('k:np.' + nm, lambda nm=nm: calc_signature(KmerSpec(getattr(np, nm)(k), P), list(blist)))
+		add('k:np.' + nm + '+set', lambda nm=nm: calc_signature(KmerSpec(getattr(np, nm)(k), P), list(blist),
+		                                                   accumulator=SetAccumulator(getattr(np, nm)(k))))
+	# -- prefix / KmerSpec representation
+	pb = P.encode()
+	add('p:bytes', lambda: calc_signature(KmerSpec(k, pb), list(blist)))
+	add('p:bytearray', lambda: calc_signature(KmerSpec(k, bytearray(pb)), list(blist)))
+	add('p:seq', lambda: calc_signature(KmerSpec(k, Seq(pb)), [Seq(b) for b in blist]))
+
+	def lower_form(pf):
+		try:
+			k2 = KmerSpec(k, pf)
+		except ValueError:
+			raise _Skip()    # refusing a lower-case prefix is not against the property
+		return calc_signature(k2, list(blist))
+	add('p:lower', lambda: lower_form(P.lower()))
+	add('p:mixed', lambda: lower_form(''.join(ch.lower() if i % 2 else ch for i, ch in enumerate(P))))
+	add('ks:json', lambda: calc_signature(KmerSpec.__from_json__(ks.__to_json__()), list(blist)))
+	add('ks:json-text', lambda: calc_signature(gjson.loads(gjson.dumps(ks), KmerSpec), list(blist)))
+	add('ks:pickle', lambda: calc_signature(pickle.loads(pickle.dumps(ks)), list(blist)))
+	add('ks:pickle-np', lambda: calc_signature(pickle.loads(pickle.dumps(KmerSpec(np.int64(k), P))), list(blist)))
+	add('ks:copy', lambda: calc_signature(copy.copy(ks), list(blist)))
+	add('ks:deepcopy', lambda: calc_signature(copy.deepcopy(ks), list(blist)))
+	# -- container
+	add('c:tuple', lambda: calc_signature(ks, tuple(blist)))
+	add('c:iter', lambda: calc_signature(ks, iter(blist)))
+	add('c:generator', lambda: calc_signature(ks, (b for b in blist)))
+	add('c:generator+set', lambda: calc_signature(ks, (bytearray(b) for b in blist), accumulator=SetAccumulator(k)))
+	add('c:deque', lambda: calc_signature(ks, collections.deque(blist)))
+	add('c:dictkeys', lambda: calc_signature(ks, dict.fromkeys(blist).keys()))
+	add('c:iterable', lambda: calc_signature(ks, _Iterable(blist)))
+	add('c:map', lambda: calc_signature(ks, map(bytes, blist)))
+
+	def same_twice():
+		objs = [bytearray(b) for b in blist]
+		return calc_signature(ks, objs + objs[:1] + objs)
+	add('c:same-object-twice', same_twice)
+	# -- element types
+	for form in ELEM_FORMS[4:]:
+		add('t:' + form, lambda form=form: calc_signature(ks, [_elem(b, form) for b in blist]))
+		if len(blist) == 1:
+			add('t:' + form + '-bare', lambda form=form: calc_signature(ks, _elem(blist[0], form)))
+
+	def mixed():
+		forms = [rnd.choice(ELEM_FORMS) for _ in blist]
+		els = []
+		for b, f in zip(blist, forms):
+			try:
+				els.append(_elem(b, f))
+			except _Skip:
+				els.append(_elem(b, 'bytes'))
+		return calc_signature(ks, els, accumulator=SetAccumulator(k) if rnd.random() < 0.5 else None)
+	add('t:mixed', mixed)
+	# -- accumulator routes
+	decoy = [bytes(rnd.choice(NUC) for _ in range(rnd.randint(0, 40))) + pb + bytes(rnd.choice(NUC) for _ in range(k + 3))]
+
+	def reused(cls):
+		acc = cls(k)
+		calc_signature(ks, decoy, accumulator=acc)
+		acc.clear()
+		return calc_signature(ks, list(blist), accumulator=acc)
+	add('a:set-reused', lambda: reused(SetAccumulator))
+	if k <= 9:
+		add('a:array-reused', lambda: reused(ArrayAccumulator))
+	add('a:none-keyword', lambda: calc_signature(ks, list(blist), accumulator=None))
+	add('call:kw', lambda: calc_signature(kmerspec=ks, seqs=list(blist), accumulator=SetAccumulator(k)))
+	add('call:kw-default', lambda: calc_signature(seqs=tuple(blist), kmerspec=ks))
+
+	def accumulate(acc):
+		for b in blist:
+			accumulate_kmers(acc, ks, b if rnd.random() < 0.5 else Seq(b))
+		return acc.signature()
+	add('a:accumulate-set', lambda: accumulate(SetAccumulator(k)))
+	add('a:accumulate-default', lambda: accumulate(default_accumulator(k)))
+
+	def via_add_kmer(acc):
+		for b in blist:
+			for m in find_kmers(ks, b):
+				acc.add_kmer(m.kmer())
+		return acc.signature()
+	add('a:add_kmer-set', lambda: via_add_kmer(SetAccumulator(k)))
+	if k <= 9:
+		add('a:add_kmer-array', lambda: via_add_kmer(ArrayAccumulator(k)))
+	# -- files (only for letters-only, non-empty records: FASTA parsing itself belongs to C06)
+	if c.get('file') and blist and all(b and b.isalpha() and all(x < 128 for x in b) for b in blist):
+		import os
+		path = os.path.join(_scratch(), f'api-{next(_FILENO)}.fasta')
+
+		def write():
+			with open(path, 'wb') as f:
+				for i, b in enumerate(blist):
+					f.write(b'>rec%d some description\n' % i)
+					w = rnd.choice([60, 7, 10**9])
+					for j in range(0, len(b), w):
+						f.write(b[j:j + w] + b'\n')
+			return SequenceFile(path, 'fasta')
+
+		def file_sig(**kw):
+			sf = write()
+			try:
+				return calc_file_signature(ks, sf, **kw)
+			finally:
+				os.unlink(path)
+		add('file:default', lambda: file_sig())
+		add('file:accumulator=set', lambda: file_sig(accumulator=SetAccumulator(k)))
+		if k <= 9:
+			add('file:accumulator=array', lambda: file_sig(accumulator=ArrayAccumulator(k)))
+	return out
+
+
+def k_api(ctx, cases):
+	import warnings
+	from gambit.kmers import KmerSpec
+	from gambit.sigs.calc import calc_signature, SetAccumulator
+	reqs = []
+	for c in cases:
+		seqs = [bytes.fromhex(h) for h in c['seqs']]
+		reqs.append((103, [c['k'], c['prefix'].encode(), seqs]))
+		reqs.append((104, c['k']))
+	ans = ctx.model(reqs) if ctx.model_ok else None
+	uk = ctx.extra.setdefault('unsigned_k', dict(calls=0, agree=0, differ=0, raised=0))
+	for i, c in enumerate(cases):
+		seqs = [bytes.fromhex(h) for h in c['seqs']]
+		k, pb = c['k'], c['prefix'].encode()
+		ref = _py_sig(k, pb, seqs)
+		if ans is None:
+			spec, dts = ref, _py_dts(k)
+		else:
+			spec = ans[2 * i]
+			dts = ans[2 * i + 1]
+			dts = dts[0] if dts else None
+			if ref != spec:
+				ctx.broke('harness reference (_py_sig) vs extracted signature_spec', f'{c}: python {ref[:10]} coq {spec[:10]}')
+		want = (spec, dts)
+		ctx.case(c if sum(len(s) for s in seqs) < 80 else dict(k=k, prefix=c['prefix'], nseqs=len(seqs), total=sum(len(s) for s in seqs),
+		                                                       vseed=c.get('vseed', 0)), nontrivial=len(spec) > 0)
+		for name, fn in _api_variants(c, seqs):
+			try:
+				got = _obs(fn())
+			except _Skip:
+				continue
+			except Exception as e:
+				ctx.violation('api', c, f'call form {name}: raised {type(e).__name__}: {e} (the signature is {spec[:20]})',
+				              impl=repr(e), spec=spec, form=name)
+				break
+			ctx.count('api-form:' + name.split(':')[0])
+			if got != want:
+				ctx.violation('api', c, f'call form {name}: signature {str(got[0])[:200]} (item size {got[1]}) but the set of '
+				              f'prefix-anchored k-mers is {spec[:20]} (item size {dts})', impl=got, spec=want, form=name)
+				break
+		# boundary, not judged: unsigned NumPy scalar k (see ASSUMPTIONS)
+		nm = UNSIGNED_K[c.get('vseed', 0) % len(UNSIGNED_K)]
+		uk['calls'] += 1
+		try:
+			with warnings.catch_warnings():
+				warnings.simplefilter('ignore')
+				kk = getattr(np, nm)(k)
+				got = _obs(calc_signature(KmerSpec(kk, c['prefix']), [bytes(s) for s in seqs], accumulator=SetAccumulator(k)))
+			uk['agree' if got == want else 'differ'] += 1
+		except Exception:
+			uk['raised'] += 1
+
+
+def _kidx(m):
+	try:
+		return int(m.kmer_index())
+	except ValueError:
+		return None
+
+
+def k_findx(ctx, cases):
+	from gambit.kmers import KmerSpec, find_kmers
+	reqs = []
+	for c in cases:
+		s = bytes.fromhex(c['seq'])
+		pb = c['prefix'].encode()
+		reqs.append((105, [c['k'], pb, s]))
+		reqs.append((105, [c['k'], pb, _py_rc(s)]))
+	ans = ctx.model(reqs) if ctx.model_ok else None
+	for i, c in enumerate(cases):
+		s = bytes.fromhex(c['seq'])
+		k, pb = c['k'], c['prefix'].encode()
+		kspec = KmerSpec(k, c['prefix'])
+		pf, pr = _py_fwd(k, pb, s), _py_fwd(k, pb, _py_rc(s))
+		if ans is not None:
+			sf, sr = ans[2 * i], ans[2 * i + 1]
+			if (pf, pr) != (sf, sr):
+				ctx.broke('harness reference (_py_fwd) vs extracted fwd_kmers', f'{c}: python {pf[:10]} {pr[:10]} coq {sf[:10]} {sr[:10]}')
+		else:
+			sf, sr = pf, pr
+		want = (sorted(set(sf)), sorted(set(sr)))
+		nm = 0
+		bad = False
+		for form in ('bytes', 'bytearray', 'str', 'seq', 'seq-str', 'seq-slice', 'kw'):
+			try:
+				obj = _elem(s, 'bytes' if form == 'kw' else form)
+			except _Skip:
+				continue
+			try:
+				ms = list(find_kmers(kmerspec=kspec, seq=obj)) if form == 'kw' else list(find_kmers(kspec, obj))
+				nm = max(nm, len(ms))
+				got = ([], [])
+				for m in ms:
+					idx = _kidx(m)
+					km = bytes(m.kmer())
+					ku = km.upper()
+					valid = len(km) == k and all(b in _CODE for b in ku)
+					if idx is not None:
+						v = 0
+						for b in ku:
+							v = v * 4 + _CODE.get(b, 0)
+						if not valid or v != idx:
+							ctx.violation('findx', c, f'find_kmers on {form}: match at {m.pos} (reverse={bool(m.reverse)}) has kmer() = {km!r} '
+							              f'but kmer_index() = {idx}', impl=[m.pos, bool(m.reverse), km.hex(), idx], form=form)
+							bad = True
+							break
+						got[1 if m.reverse else 0].append(idx)
+					elif valid:
+						ctx.violation('findx', c, f'find_kmers on {form}: match at {m.pos} (reverse={bool(m.reverse)}) has the valid k-mer '
+						              f'{km!r} but kmer_index() raises', impl=[m.pos, bool(m.reverse), km.hex()], form=form)
+						bad = True
+						break
+			except Exception as e:
+				ctx.violation('findx', c, f'find_kmers on {form}: raised {type(e).__name__}: {e}', impl=repr(e), form=form)
+				bad = True
+			if bad:
+				break
+			got = (sorted(set(got[0])), sorted(set(got[1])))
+			if got != want:
+				ctx.violation('findx', c, f'find_kmers on {form}: valid k-mers per strand (forward, reverse) = {str(got)[:300]} but the k-mers that '
+				              f'follow an occurrence of the prefix are {str(want)[:300]}', impl=got, spec=want, form=form)
+				bad = True
+				break
+		ctx.case(c if len(s) < 80 else dict(k=k, prefix=c['prefix'], n=len(s)), nontrivial=nm >= 2)
+
+
+def _big_seqs(g):
+	"""the sequences of a `big` case, a deterministic function of its description g"""
+	import random
+	r = random.Random(g['seed'])
+	nr = np.random.RandomState(g['seed'] % (2 ** 32))
+	p = g['prefix'].encode()
+	k = g['k']
+	alpha = np.frombuffer({'upper': b'ACGT', 'mixed': b'ACGTacgt', 'n': b'ACGTACGTACGTACGTNacgtn'}[g['alpha']], dtype='u1')
+	seqs = []
+	for n in g['lens']:
+		b = bytearray(alpha[nr.randint(0, len(alpha), n)].tobytes())
+		w = len(p) + k
+		marks = [0, n - w, 2 ** 15 - 1, 2 ** 15, 2 ** 16 - 1, 2 ** 16, 2 ** 16 + 1, 2 ** 17, 2 ** 20 - 1, 2 ** 20, 2 ** 21, n // 2, n * 7 // 10, n * 8 // 10, n * 9 // 10]
+		for mk in marks:
+			# windows that start just before, straddle and start at each mark, on both strands
+			for off in (-w, -(w // 2), -1, 0):
+				q = mk + off
+				if 0 <= q and q + w <= n:
+					kmer = bytes(r.choice(NUC) for _ in range(k))
+					win = p + kmer
+					if r.random() < 0.5:
+						win = _py_rc(win)
+					if r.random() < 0.3 and q >= g.get('lowfrom', 0) * n:
+						win = win.lower()
+					b[q:q + w] = win
+		for _ in range(g.get('junk', 0) if n else 0):
+			b[r.randrange(n)] = r.choice([0, 255, ord('N'), ord('-'), 0xC1, ord('\n')])
+		seqs.append(bytes(b))
+	return seqs
+
+
+def _big_one(ctx, c):
+	from gambit.kmers import KmerSpec
+	from gambit.sigs.calc import calc_signature, SetAccumulator, ArrayAccumulator
+	k, P = c['k'], c['prefix']
+	seqs = _big_seqs(c)
+	spec = _py_sig(k, P.encode(), seqs)
+	want = (spec, _py_dts(k))
+	ctx.case(c, nontrivial=len(spec) >= 100)
+	kspec = KmerSpec(k, P)
+	for form in ('bytes', 'bytearray', 'str', 'seq'):
+		try:
+			inp = [_elem(s, form) for s in seqs]
+		except _Skip:
+			continue
+		for accname in ('set', 'default', 'array'):
+			if accname == 'array' and (k > 9 or form != 'bytearray'):
+				continue
+			acc = None if accname == 'default' else SetAccumulator(k) if accname == 'set' else ArrayAccumulator(k)
+			try:
+				got = _obs(calc_signature(kspec, inp[0] if len(inp) == 1 and accname == 'default' else inp, accumulator=acc))
+			except Exception as e:
+				ctx.violation('big', c, f'{form}/{accname}: raised {type(e).__name__}: {e}', impl=repr(e))
+				return
+			if got != want:
+				a, b = set(got[0]) if isinstance(got[0], list) else set(), set(spec)
+				ctx.violation('big', c, f'{form}/{accname}: signature of {len(seqs)} generated sequences (lengths {c["lens"]}) has '
+				              f'{len(got[0])} k-mers, item size {got[1]}; the specification gives {len(spec)}, item size {want[1]}; '
+				              f'missing {sorted(b - a)[:10]} spurious {sorted(a - b)[:10]}',
+				              impl=[len(got[0]), got[1]], spec=[len(spec), want[1]])
+				return
+
+
+def k_big(ctx, cases):
+	for c in cases:
+		_big_one(ctx, c)
+
+
+KINDS = {'sig': k_sig, 'find': k_find, 'api': k_api, 'findx': k_findx, 'big': k_big}
 BATCH = 500
 
 
@@ -192,3 +688,136 @@ def generate(ctx):
 		ctx.count('stream:random-planted')
 		yield 'sig', dict(k=k, prefix=p.decode(), seqs=[s.hex() for s in seqs])
 		yield 'find', dict(k=k, prefix=p.decode(), seq=seqs[0].hex())
+
+	# ------------------------------------------------------------------------------------------
+	# streams added by the coverage audit (see the table in the module docstring)
+	# ------------------------------------------------------------------------------------------
+	def rand_prefix(lo=1, hi=7):
+		if rng.random() < 0.15:
+			return rng.choice([b'AT', b'AA', b'ACGT', b'TA', b'GC', b'ATAT', b'CCC', b'GATC'])
+		return bytes(rng.choice(NUC) for _ in range(rng.randint(lo, hi)))
+
+	def planted(k, p, ln, alphabet=None, nplant=None):
+		"""random sequence of length ln with occurrences of p / rc(p) planted at the boundaries"""
+		plen = len(p)
+		if alphabet is None:
+			alphabet = b'ACGT' if rng.random() < 0.7 else b'ACGTacgtNn'
+		b = bytearray(rng.choice(alphabet) for _ in range(ln))
+		for _ in range(rng.randint(0, 6) if nplant is None else nplant):
+			if ln >= plen:
+				where = rng.choice([0, ln - plen, max(0, ln - plen - k), rng.randrange(ln - plen + 1), k if ln - plen >= k else 0])
+				motif = p if rng.random() < 0.5 else _rc(p)
+				if rng.random() < 0.3:
+					motif = motif.lower()
+				b[where:where + plen] = motif
+		if rng.random() < 0.2 and ln:
+			b[rng.randrange(ln)] = rng.choice([0, 255, ord('N'), ord('n'), ord('-'), 0xC1])
+		return bytes(b)
+
+	def lens_for(k, plen):
+		return [0, 1, plen, plen + k - 1, plen + k, plen + k + 1, 2 * (plen + k), 40, 200]
+
+	# every k from 1 to 32 (dtype boundaries, dense accumulator up to 11, 12/13 once), prefixes up to 12
+	for k in range(1, 33):
+		for j in range(ctx.pick(6, 30)):
+			p = rand_prefix(1, 12)
+			seqs = [planted(k, p, rng.choice(lens_for(k, len(p)))) for _ in range(rng.choice([1, 1, 2, 3]))]
+			case = dict(k=k, prefix=p.decode(), seqs=[s.hex() for s in seqs])
+			if k in (12, 13) and j == 0:
+				case['dense'] = True
+			ctx.count('stream:all-k')
+			yield 'sig', case
+	# the empty collection and collections of empty sequences, every k (dtype of an empty signature)
+	for k in range(1, 33):
+		ctx.count('stream:empty-collection', 2)
+		yield 'sig', dict(k=k, prefix=rand_prefix().decode(), seqs=[], nt=False)
+		yield 'sig', dict(k=k, prefix=rand_prefix().decode(), seqs=[''] * rng.randint(1, 3), nt=False)
+		yield 'api', dict(k=k, prefix=rand_prefix().decode(), seqs=[], vseed=rng.randrange(10 ** 6))
+	# long prefixes
+	for _ in range(ctx.pick(60, 600)):
+		k = rng.randint(1, 32)
+		p = bytes(rng.choice(NUC) for _ in range(rng.randint(8, 24)))
+		seqs = [planted(k, p, rng.choice(lens_for(k, len(p)) + [len(p) + k + 2, 120]), nplant=rng.randint(1, 4)) for _ in range(rng.choice([1, 2]))]
+		ctx.count('stream:long-prefix')
+		yield 'sig', dict(k=k, prefix=p.decode(), seqs=[s.hex() for s in seqs])
+	# every byte value at every offset of a prefix+k-mer window, on both strands, flush or not
+	for k, p in ((3, b'AC'), (2, b'ATG'), (5, b'T')):
+		kmer = bytes(rng.choice(NUC) for _ in range(k))
+		for bval in range(256):
+			for j in range(len(p) + k):
+				for strand in (0, 1):
+					w = bytearray(p + kmer if strand == 0 else _rc(p + kmer))
+					if rng.random() < 0.3:
+						w = bytearray(bytes(w).lower())
+					w[j] = bval
+					# neighbours: nothing (flush), a short flank, or an intact occurrence on either strand
+					left, right = (rng.choice([b'', b'', bytes(rng.choice(NUC) for _ in range(rng.randint(1, 3))),
+					                           p + kmer, _rc(p + kmer), (p + kmer).lower(), _rc(p + kmer).lower()]) for _ in range(2))
+					ctx.count('stream:byte-sweep')
+					yield 'sig', dict(k=k, prefix=p.decode(), seqs=[(left + bytes(w) + right).hex()], nt=bval in b'ACGTacgt')
+					if not ctx.quick or (bval % 8 == j and strand == 0):
+						yield 'findx', dict(k=k, prefix=p.decode(), seq=(left + bytes(w) + right).hex())
+	# homopolymers / tandem repeats: maximal self-overlap of the prefix occurrences
+	for _ in range(ctx.pick(100, 1000)):
+		unit = bytes(rng.choice(NUC) for _ in range(rng.randint(1, 4)))
+		reps = rng.choice([1, 2, 3, 5, 17, 60, 300 // len(unit)])
+		body = bytearray(unit * reps)
+		plen = rng.randint(1, 6)
+		rot = rng.randrange(len(unit))
+		p = ((unit * 8)[rot:rot + plen])
+		if rng.random() < 0.3:
+			p = _rc(p)
+		if rng.random() < 0.3 and body:
+			body[rng.randrange(len(body))] = rng.choice(b'ACGTNacgt')
+		if rng.random() < 0.3:
+			body = bytearray(bytes(body).swapcase())
+		k = rng.choice([1, 2, 3, 4, 5, 7, 10, 15, 16, 17, 29, 32])
+		ctx.count('stream:tandem')
+		yield 'sig', dict(k=k, prefix=p.decode(), seqs=[bytes(body).hex()])
+		yield 'findx', dict(k=k, prefix=p.decode(), seq=bytes(body).hex())
+	# letter case: the same sequences all upper / all lower / swapped / randomly cased
+	for _ in range(ctx.pick(60, 600)):
+		k = rng.randint(1, 32)
+		p = rand_prefix()
+		base = [planted(k, p, rng.choice([len(p) + k, len(p) + k + 1, 40, 200]), alphabet=b'ACGTN', nplant=rng.randint(1, 5))
+		        for _ in range(rng.choice([1, 2]))]
+		for how in ('upper', 'lower', 'swapcase', 'random'):
+			seqs = [getattr(s, how)() if how != 'random' else bytes(b | 0x20 if rng.random() < 0.5 else b for b in s.upper()) for s in base]
+			ctx.count('stream:case-variants')
+			yield 'sig', dict(k=k, prefix=p.decode(), seqs=[s.hex() for s in seqs])
+	# large collections: 10..60 sequences with repeats and empties
+	for _ in range(ctx.pick(20, 200)):
+		k = rng.randint(1, 32)
+		p = rand_prefix(1, 4)
+		pool = [planted(k, p, rng.choice(lens_for(k, len(p)))) for _ in range(rng.randint(3, 12))]
+		seqs = [rng.choice(pool) for _ in range(rng.randint(10, 60))]
+		ctx.count('stream:many-seqs')
+		yield 'sig', dict(k=k, prefix=p.decode(), seqs=[s.hex() for s in seqs])
+	# call forms: every k twice, then random
+	ks_api = list(range(1, 33)) * 2 + [rng.choice([1, 2, 3, 4, 5, 6, 7, 8, 9, 12, 16, 17, 24, 31, 32]) for _ in range(ctx.pick(500, 5000))]
+	for n_api, k in enumerate(ks_api):
+		p = rand_prefix()
+		nseq = rng.choice([1, 1, 2, 3, 5])
+		alphabet = rng.choice([b'ACGT', b'ACGT', b'ACGTacgtNn', b'ACGTN'])
+		seqs = [planted(k, p, rng.choice(lens_for(k, len(p)) + ([400] if n_api % 10 == 0 else [])), alphabet=alphabet) for _ in range(nseq)]
+		ctx.count('stream:api-forms')
+		yield 'api', dict(k=k, prefix=p.decode(), seqs=[s.hex() for s in seqs], vseed=rng.randrange(10 ** 6), file=(n_api % 3 == 0))
+	# find_kmers through every input type, judged per strand against the specification
+	for _ in range(ctx.pick(400, 4000)):
+		k = rng.randint(1, 32)
+		p = rand_prefix(1, 9)
+		ctx.count('stream:findx-random')
+		yield 'findx', dict(k=k, prefix=p.decode(), seq=planted(k, p, rng.choice(lens_for(k, len(p)) + [400])).hex())
+	# long sequences, described by a seed (Python reference only)
+	# lowfrom: lower-case letters only in the last part of the sequence
+	bigs = [dict(lens=[70000], alpha='upper'), dict(lens=[150000], alpha='upper', lowfrom=0.6), dict(lens=[2 ** 16 + 40, 2 ** 15 + 7, 0, 131100], alpha='mixed', junk=50),
+	        dict(lens=[2 ** 20 + 300], alpha='n', junk=200)]
+	if not ctx.quick:
+		bigs += [dict(lens=[2 ** 22 + 11], alpha='upper'), dict(lens=[2 ** 21 + 5, 2 ** 20], alpha='mixed', junk=1000)] + \
+		        [dict(lens=[rng.randint(30000, 600000) for _ in range(rng.randint(1, 4))], alpha=rng.choice(['upper', 'mixed', 'n']),
+		              junk=rng.randint(0, 300)) for _ in range(10)]
+	for g in bigs:
+		k = rng.choice([4, 8, 9, 11, 16, 17, 32])
+		g.update(k=k, prefix=bytes(rng.choice(NUC) for _ in range(rng.randint(3, 5))).decode(), seed=rng.randrange(2 ** 31))
+		ctx.count('stream:big')
+		yield 'big', g
